@@ -224,7 +224,7 @@ func (vc *VC) loopHead(fr *Frame, li *loopInfo, b *ssa.BasicBlock) {
 	// 1. the invariant holds on entry
 	for i, c := range invs {
 		g := vc.evalClause(c.GoName, fc.Pkg, vc.loopClauseArgs(fr, li, c, nil), vc.st, vc.entry)
-		vc.oblige(fmt.Sprintf("loop%d.init:%s", li.ord, clauseLabel(c, i)), c.Tags, g)
+		vc.obligeConj(fmt.Sprintf("loop%d.init:%s", li.ord, clauseLabel(c, i)), c.Tags, g)
 	}
 	// 2. havoc what the loop may change
 	st := vc.st.clone()
@@ -327,7 +327,7 @@ func (vc *VC) loopBack(fr *Frame, li *loopInfo, from *ssa.BasicBlock) {
 	vc.smoke(fmt.Sprintf("loop%d.body", li.ord))
 	for i, c := range fc.LoopInv[li.ord] {
 		g := vc.evalClause(c.GoName, fc.Pkg, vc.loopClauseArgs(fr, li, c, over), vc.st, vc.entry)
-		vc.oblige(fmt.Sprintf("loop%d.preserve:%s", li.ord, clauseLabel(c, i)), c.Tags, g)
+		vc.obligeConj(fmt.Sprintf("loop%d.preserve:%s", li.ord, clauseLabel(c, i)), c.Tags, g)
 	}
 	if d := fc.LoopDec[li.ord]; d != nil {
 		v := vc.evalValueFunc(d.GoName, fc.Pkg, vc.loopClauseArgs(fr, li, d, over), vc.st, vc.entry)
